@@ -14,6 +14,7 @@ package props
 import (
 	"fmt"
 	"os"
+	"os/exec"
 	"path/filepath"
 	"sort"
 	"strings"
@@ -607,6 +608,21 @@ func runC11(t *testing.T, sc c11Scenario) verdict {
 	accepted, msg := c11Validate(path)
 	defects := c11Structural(sc)
 	var vs []sim.Violation
+	// differential against the real CLI on a sample: `fan2go -c <file> config validate`
+	cli := ""
+	if bin := os.Getenv("VERIF_FAN2GO_BIN"); bin != "" && sim.Hash(sc)[0] == '0' {
+		cmd := exec.Command(bin, "-c", path, "--no-style", "--no-color", "config", "validate")
+		cmd.Env = append(os.Environ(), "FAN2GO_VERIF_HWMON_ROOT="+filepath.Join(dir, "no-hwmon"), "HOME="+dir)
+		out, err := cmd.CombinedOutput()
+		cliAccepted := err == nil
+		cli = "accepted"
+		if !cliAccepted {
+			cli = "rejected"
+		}
+		if cliAccepted != accepted {
+			vs = append(vs, sim.Violation{Key: "cli-verdict-differs-from-validator", Msg: fmt.Sprintf("`fan2go config validate` %s the file, configuration.Validate says accepted=%v (%s); CLI output: %s", cli, accepted, msg, clip(string(out)))})
+		}
+	}
 	undocumented := false
 	emptyish := false
 	for _, c := range sc.Curves {
@@ -636,6 +652,9 @@ func runC11(t *testing.T, sc c11Scenario) verdict {
 	}
 	for _, d := range sc.Defects {
 		labels = append(labels, "defect:"+d)
+	}
+	if cli != "" {
+		labels = append(labels, "cli-differential")
 	}
 	fnNodes := 0
 	for _, c := range sc.Curves {
